@@ -1,15 +1,15 @@
 SPECIFICATION Spec
 CONSTANTS
-  MaxItems = 5
+  MaxItems = 4
   MaxActors = 1
   MaxOwners = 2
   MaxRets = 1
-  MaxTop = 5
+  MaxTop = 4
   MaxBody = 1
   TopOps <- Ops_ATopAll
   BodyOps <- Ops_ABody
   MethOps <- Ops_AMethAll
-  LogLevels = {}
+  LogLevels = {"warn", "audit"}
   RunTimes = {1}
 INVARIANT NoViolation
 VIEW View
